@@ -71,4 +71,49 @@ theorem codec_keeps_rows {R : Type} (e : Codec.Entry R) :
     Codec.unmarshalEntry C16.F (Codec.marshalEntry C16.F e) = e :=
   C16.entry_roundtrip e
 
+/-! ### the key column of an UPDATE (F77)
+
+Changing a key is not implemented.  The SQLite binding decides between "update in place" and
+"replace" by a comparison of its own that lets a new key pass as unchanged whenever it converts to
+the old one (`binding old new`, about which nothing is assumed); `VirtualTable.Update` then
+addresses the row by the old key.  `updateRefusesKeyChange`: it first compares the two, value and
+storage class. -/
+
+/-- what an UPDATE assigning `new` to the key of the row `old` does: `none` = refused, `some k` =
+    applied to the row whose key then reads back as `k` -/
+def updateKey (F : Facts) (binding : Val → Val → Bool) (old new : Val) : Option Val :=
+  if !binding old new then none                                   -- Replace: "unimplemented"
+  else if F.updateRefusesKeyChange && decide (new ≠ old) then none
+  else some old
+
+/-- **a key that is written is the key that is read back, or the statement is refused** —
+    whatever the binding takes for "unchanged" -/
+theorem key_update_stored_or_refused (binding : Val → Val → Bool) (old new k : Val)
+    (h : updateKey S3db.Gen.facts binding old new = some k) : k = new := by
+  have hF : S3db.Gen.facts.updateRefusesKeyChange = true := by decide
+  unfold updateKey at h
+  split at h
+  · cases h
+  · simp only [hF, Bool.true_and] at h
+    split at h
+    · cases h
+    · rename_i hne
+      simp only [decide_eq_true_eq, ne_eq, Decidable.not_not] at hne
+      cases h; exact hne.symm
+
+/-- an UPDATE that leaves the key alone (SQLite passes the old key as the new one) is applied -/
+theorem same_key_update_applied (binding : Val → Val → Bool) (old : Val) (hb : binding old old = true) :
+    updateKey S3db.Gen.facts binding old old = some old := by
+  simp [updateKey, hb]
+
+/-- the defect F77 on the model without the comparison, with a binding that compares through the
+    old key's accessor (the text `3` read as an integer is `3`): the statement succeeds with the old key -/
+theorem without_comparison_coerced_key_kept :
+    let F0 : Facts := { S3db.Gen.facts with updateRefusesKeyChange := false }
+    let binding : Val → Val → Bool := fun _ _ => true
+    updateKey F0 binding (.int 3) (.text [51]) = some (.int 3) := by
+  decide
+
+theorem key_update_facts : S3db.Gen.facts.updateRefusesKeyChange = true := by decide
+
 end S3db.Props.C08
